@@ -11,6 +11,7 @@ import (
 	"strconv"
 	"strings"
 	"testing"
+	"unicode/utf8"
 
 	"github.com/ava-labs/avalanchego/utils/wrappers"
 
@@ -125,11 +126,6 @@ type Signed struct {
 	U64s []uint64 `serialize:"true" json:"u64s"`
 }
 
-type EmbAddr struct {
-	codec.Address `serialize:"true"`
-	V             uint64 `serialize:"true" json:"value"`
-}
-
 // describe-only: json tag options
 type TagOpts struct {
 	A uint64 `serialize:"true" json:"a,omitempty"`
@@ -152,7 +148,6 @@ func (Deep) GetTypeID() uint8      { return 9 }
 func (NoTag) GetTypeID() uint8     { return 10 }
 func (WithEmpty) GetTypeID() uint8 { return 11 }
 func (Signed) GetTypeID() uint8    { return 12 }
-func (EmbAddr) GetTypeID() uint8   { return 13 }
 func (TagOpts) GetTypeID() uint8   { return 14 }
 
 // index into allTypes
@@ -171,7 +166,6 @@ const (
 	tNoTag
 	tWithEmpty
 	tSigned
-	tEmbAddr
 	tTagOpts // describe only
 	nTypes
 )
@@ -184,7 +178,7 @@ type entry struct {
 
 var allTypes = []entry{
 	{"Transfer", &actions.Transfer{}, 0},
-	{"TransferResult", &actions.TransferResult{}, 20},
+	{"TransferResult", &actions.TransferResult{}, 0},
 	{"Inner", &Inner{}, 1},
 	{"Pair", &Pair{}, 2},
 	{"Numbers", &Numbers{}, 3},
@@ -197,14 +191,7 @@ var allTypes = []entry{
 	{"NoTag", &NoTag{}, 10},
 	{"WithEmpty", &WithEmpty{}, 11},
 	{"Signed", &Signed{}, 12},
-	{"EmbAddr", &EmbAddr{}, 13},
 	{"TagOpts", &TagOpts{}, 14},
-}
-
-// idTyped lets us register a type under a chosen id (TransferResult shares id 0 with Transfer natively).
-type idTyped struct {
-	codec.Typed
-	id uint8
 }
 
 func (e entry) rtype() reflect.Type { return reflect.TypeOf(e.zero).Elem() }
@@ -288,6 +275,14 @@ func valTerm(v reflect.Value) string {
 	case reflect.String:
 		return emit.App("VStr", emit.Bytes([]byte(v.String())))
 	case reflect.Slice, reflect.Array:
+		if t.Elem().Kind() == reflect.Uint8 && v.Len() > 0 {
+			// vb (Check/C29_check.v) = VList of VNum, printed compactly
+			b := make([]byte, v.Len())
+			for i := range b {
+				b[i] = byte(v.Index(i).Uint())
+			}
+			return emit.App("vb", emit.Bytes(b))
+		}
 		items := make([]string, v.Len())
 		for i := range items {
 			items[i] = valTerm(v.Index(i))
@@ -382,14 +377,14 @@ func genInto(r *rand.Rand, v reflect.Value, depth int, big bool) {
 		if r.Intn(4) == 0 {
 			s += strPool[r.Intn(len(strPool))]
 		}
-		if big && r.Intn(3) == 0 {
+		if big && r.Intn(6) == 0 {
 			s = strings.Repeat("x", 255+r.Intn(3))
 		}
 		v.SetString(s)
 	case reflect.Slice:
 		n := genLen(r, depth)
-		if t.Elem().Kind() == reflect.Uint8 && big {
-			n = []int{0, 1, 255, 256, 257, 300}[r.Intn(6)]
+		if t.Elem().Kind() == reflect.Uint8 && big && r.Intn(3) == 0 {
+			n = []int{255, 256, 257, 300}[r.Intn(4)]
 		}
 		s := reflect.MakeSlice(t, n, n) // non-nil even when empty
 		for i := 0; i < n; i++ {
@@ -428,36 +423,59 @@ func genInto(r *rand.Rand, v reflect.Value, depth int, big bool) {
 // ---------------------------------------------------------------- running the real code
 
 type rootSpec struct {
-	Types []int `json:"types"` // indices into allTypes; all registered as actions and outputs
+	Types []int `json:"types"` // indices into allTypes registered as actions
+	Outs  []int `json:"outs"`  // registered as outputs; nil: the same as Types
+	AsOut bool  `json:"asOut"` // the type under test is Outs[K] (decoded with UnmarshalOutput), else Types[K]
 }
 
-func (rs rootSpec) build() (abi.ABI, string, error) {
+func (rs rootSpec) outs() []int {
+	if rs.Outs == nil {
+		return rs.Types
+	}
+	return rs.Outs
+}
+
+func (rs rootSpec) under(k int) int {
+	if rs.AsOut {
+		return rs.outs()[k]
+	}
+	return rs.Types[k]
+}
+
+func rootsTerm(idx []int) (string, []codec.Typed) {
 	var typed []codec.Typed
-	items := make([]string, len(rs.Types))
-	for i, ti := range rs.Types {
+	items := make([]string, len(idx))
+	for i, ti := range idx {
 		e := allTypes[ti]
-		typed = append(typed, idTyped{e.zero, e.id})
+		typed = append(typed, e.zero)
 		items[i] = emit.Pair(emit.N(uint64(e.id)), tyTerm(e.rtype()))
 	}
-	a, err := newABI(typed)
-	return a, emit.List("N * ty", items), err
+	return emit.List("N * ty", items), typed
 }
 
-// abi.NewABI takes reflect.TypeOf(typed): pass the underlying pointer but override the id afterwards.
-func newABI(typed []codec.Typed) (abi.ABI, error) {
-	raw := make([]codec.Typed, len(typed))
-	for i, t := range typed {
-		raw[i] = t.(idTyped).Typed
-	}
-	a, err := abi.NewABI(raw, raw)
+// build runs abi.NewABI and returns the Coq terms of the two registries
+func (rs rootSpec) build() (abi.ABI, string, string, error) {
+	at, acts := rootsTerm(rs.Types)
+	ot, outs := rootsTerm(rs.outs())
+	a, err := abi.NewABI(acts, outs)
 	if err != nil {
-		return a, err
+		return a, at, ot, err
 	}
-	for i, t := range typed {
-		a.Actions[i].ID = t.(idTyped).id
-		a.Outputs[i].ID = t.(idTyped).id
+	for i, ti := range rs.Types {
+		a.Actions[i].ID = allTypes[ti].id
 	}
-	return a, nil
+	for i, ti := range rs.outs() {
+		a.Outputs[i].ID = allTypes[ti].id
+	}
+	return a, at, ot, nil
+}
+
+// Coq term of the ctx record, sharing the registry when outputs mirror actions
+func (rs rootSpec) ctx(at, ot string, k int) (string, string) {
+	if rs.Outs == nil {
+		return "let r := " + at + " in ", emit.App("Ctx", "r", "r", emit.Bool(rs.AsOut), emit.Nat(k))
+	}
+	return "", emit.App("Ctx", at, ot, emit.Bool(rs.AsOut), emit.Nat(k))
 }
 
 func safely(f func()) (err error) {
@@ -480,7 +498,6 @@ func nativeBytes(ti int, ptr interface{}) ([]byte, bool) {
 			out = x.Bytes()
 		case *actions.TransferResult:
 			out = x.Bytes()
-			out[0] = allTypes[ti].id // TransferResult is registered under its own id in the test ABI
 		default:
 			p := &wrappers.Packer{Bytes: make([]byte, 0, 64), MaxSize: consts.NetworkSizeLimit}
 			p.PackByte(allTypes[ti].id)
@@ -560,11 +577,15 @@ type marshalIn struct {
 }
 
 func runMarshal(in marshalIn) emit.Case {
-	ti := in.Roots.Types[in.K]
+	ti := in.Roots.under(in.K)
 	e := allTypes[ti]
-	a, rootsTerm, err := in.Roots.build()
+	a, at, ot, err := in.Roots.build()
 	if err != nil {
 		panic(err)
+	}
+	unmarshal := dynamic.UnmarshalAction
+	if in.Roots.AsOut {
+		unmarshal = dynamic.UnmarshalOutput
 	}
 	ptr := reflect.New(e.rtype())
 	if err := json.Unmarshal(in.Value, ptr.Interface()); err != nil {
@@ -575,7 +596,9 @@ func runMarshal(in marshalIn) emit.Case {
 
 	var dyn []byte
 	var derr error
-	if perr := safely(func() { dyn, derr = dynamic.Marshal(a, e.name, string(doc)) }); perr != nil {
+	if in.Roots.AsOut {
+		derr = fmt.Errorf("dynamic.Marshal serves actions only")
+	} else if perr := safely(func() { dyn, derr = dynamic.Marshal(a, e.name, string(doc)) }); perr != nil {
 		derr = perr
 	}
 	nb, nok := nativeBytes(ti, ptr.Interface())
@@ -585,7 +608,7 @@ func runMarshal(in marshalIn) emit.Case {
 	if nok {
 		var s string
 		var uerr error
-		if perr := safely(func() { s, uerr = dynamic.UnmarshalAction(a, nb) }); perr != nil {
+		if perr := safely(func() { s, uerr = unmarshal(a, nb) }); perr != nil {
 			uerr = perr
 		}
 		if uerr == nil {
@@ -595,17 +618,37 @@ func runMarshal(in marshalIn) emit.Case {
 				nd, _ := json.Marshal(np.Interface())
 				jsoneq = jsonEqual(string(nd), s) && jsonEqual(string(doc), s)
 			}
-			// the output path must agree with the action path
-			if so, err := dynamic.UnmarshalOutput(a, nb); err != nil || so != s {
-				jsoneq = false
+			// registered both ways: the output path must agree with the action path
+			if in.Roots.Outs == nil {
+				if so, err := dynamic.UnmarshalOutput(a, nb); err != nil || so != s {
+					jsoneq = false
+				}
 			}
 		}
 	}
-	coq := emit.App("CMarshal", rootsTerm, emit.Nat(in.K), valTerm(ptr.Elem()),
-		optBytes(dyn, derr == nil), optBytes(nb, nok), optVal(unm), emit.Bool(jsoneq))
+	// share the repeated sub-terms (the Coq parser is the bottleneck of the check)
+	vT := valTerm(ptr.Elem())
+	dynT, unmT := optBytes(dyn, derr == nil), optVal(unm)
+	if nok && derr == nil && string(dyn) == string(nb) {
+		dynT = "(Some nb)"
+	}
+	if unm != nil && valTerm(*unm) == vT {
+		unmT = "(Some v)"
+	}
+	nbT := "(@nil N)"
+	if nok {
+		nbT = emit.Bytes(nb)
+	}
+	nativeT := "(@None (list N))"
+	if nok {
+		nativeT = "(Some nb)"
+	}
+	pre, ctx := in.Roots.ctx(at, ot, in.K)
+	coq := "(" + pre + "let v := " + vT + " in let nb := " + nbT + " in " +
+		emit.App("CMarshal", ctx, "v", dynT, nativeT, unmT, emit.Bool(jsoneq)) + ")"
 	kind := "marshal:" + e.name
 	sig := "abi-marshal-differs-from-native:" + e.name
-	if nok && derr == nil && string(dyn) == string(nb) {
+	if nok && (in.Roots.AsOut || derr == nil && string(dyn) == string(nb)) {
 		sig = "abi-unmarshal-json-differs:" + e.name
 	}
 	in.Value = doc
@@ -618,39 +661,75 @@ type decodeIn struct {
 	Data  []byte   `json:"data"`
 }
 
-func runDecode(in decodeIn) emit.Case {
-	ti := in.Roots.Types[in.K]
+// strings that are not valid UTF-8 do not survive encoding/json (replaced by U+FFFD): such byte strings have
+// no JSON document, the property does not speak about them
+func hasBadString(v reflect.Value) bool {
+	switch v.Kind() {
+	case reflect.String:
+		return !utf8.ValidString(v.String())
+	case reflect.Slice, reflect.Array:
+		for i := 0; i < v.Len(); i++ {
+			if hasBadString(v.Index(i)) {
+				return true
+			}
+		}
+	case reflect.Struct:
+		for i := 0; i < v.NumField(); i++ {
+			if hasBadString(v.Field(i)) {
+				return true
+			}
+		}
+	}
+	return false
+}
+
+func runDecode(in decodeIn) (emit.Case, bool) {
+	ti := in.Roots.under(in.K)
 	e := allTypes[ti]
-	a, rootsTerm, err := in.Roots.build()
+	a, at, ot, err := in.Roots.build()
 	if err != nil {
 		panic(err)
 	}
+	unmarshal := dynamic.UnmarshalAction
+	if in.Roots.AsOut {
+		unmarshal = dynamic.UnmarshalOutput
+	}
 	native := "(@None (value * N))"
 	np, off, nok := nativeParse(ti, in.Data)
+	if nok && hasBadString(np.Elem()) {
+		return emit.Case{}, false
+	}
+	vT := "(VNum 0%Z)"
 	if nok {
 		normalize(np.Elem())
-		native = emit.Some(emit.Pair(valTerm(np.Elem()), emit.N(uint64(off))))
+		vT = valTerm(np.Elem())
+		native = emit.Some(emit.Pair("v", emit.N(uint64(off))))
 	}
 	var dynv *reflect.Value
 	var s string
 	var uerr error
-	if perr := safely(func() { s, uerr = dynamic.UnmarshalAction(a, in.Data) }); perr != nil {
+	if perr := safely(func() { s, uerr = unmarshal(a, in.Data) }); perr != nil {
 		uerr = perr
 	}
 	if uerr == nil && len(in.Data) > 0 {
 		dynv = readBack(ti, s)
 	}
-	coq := emit.App("CDecode", rootsTerm, emit.Nat(in.K), emit.Bytes(in.Data), native, optVal(dynv))
+	dynT := optVal(dynv)
+	if dynv != nil && valTerm(*dynv) == vT {
+		dynT = "(Some v)"
+	}
+	pre, ctx := in.Roots.ctx(at, ot, in.K)
+	coq := "(" + pre + "let v := " + vT + " in " + emit.App("CDecode", ctx, emit.Bytes(in.Data), native, dynT) + ")"
 	kind := "decode-fail:" + e.name
 	if nok {
 		kind = "decode-ok:" + e.name
 	}
 	return emit.Case{Coq: coq, JSON: map[string]interface{}{"op": "decode", "in": in}, Nontrivial: len(in.Data) > 1, Kind: kind,
-		Sig: "abi-decode-differs-from-native:" + e.name}
+		Sig: "abi-decode-differs-from-native:" + e.name}, true
 }
 
 func runDescribe(rs rootSpec) emit.Case {
-	a, rootsTerm, err := rs.build()
+	a, at, ot, err := rs.build()
 	if err != nil {
 		panic(err)
 	}
@@ -662,7 +741,7 @@ func runDescribe(rs rootSpec) emit.Case {
 		}
 		items[i] = emit.Pair(emit.Str(t.Name), emit.List("string * string", fl))
 	}
-	coq := emit.App("CDescribe", rootsTerm, emit.List("abitype", items))
+	coq := emit.App("CDescribe", at, ot, emit.List("abitype", items))
 	return emit.Case{Coq: coq, JSON: map[string]interface{}{"op": "describe", "in": rs}, Nontrivial: len(a.Types) > 1, Kind: "describe",
 		Sig: "abi-describe"}
 }
@@ -689,8 +768,13 @@ func runNative(in nativeIn) emit.Case {
 			back = &v
 		}
 	}
-	coq := emit.App("CNative", tyTerm(reflect.TypeOf(*ta)), emit.N(uint64(ta.GetTypeID())), valTerm(reflect.ValueOf(ta).Elem()),
-		optBytes(nb, nok), optVal(back))
+	vT := valTerm(reflect.ValueOf(ta).Elem())
+	backT := optVal(back)
+	if back != nil && valTerm(*back) == vT {
+		backT = "(Some v)"
+	}
+	coq := "(let v := " + vT + " in " + emit.App("CNative", tyTerm(reflect.TypeOf(*ta)), emit.N(uint64(ta.GetTypeID())), "v",
+		optBytes(nb, nok), backT) + ")"
 	doc, _ := json.Marshal(ta)
 	return emit.Case{Coq: coq, JSON: map[string]interface{}{"op": "native", "in": nativeIn{doc}}, Nontrivial: nok, Kind: "native:TestAction",
 		Sig: "native-codec-roundtrip:TestAction"}
@@ -699,16 +783,22 @@ func runNative(in nativeIn) emit.Case {
 // ---------------------------------------------------------------- generators
 
 func genRoots(r *rand.Rand, must int) (rootSpec, int) {
-	switch r.Intn(4) {
-	case 0: // the reference VM registry together with other types
-		rs := rootSpec{Types: []int{tTransfer, tTransferResult}}
-		if must != tTransfer && must != tTransferResult {
-			rs.Types = append(rs.Types, must)
-			return rs, 2
-		}
-		if must == tTransfer {
+	switch r.Intn(8) {
+	case 0: // the reference VM registry (Transfer action, TransferResult output, both id 0), plus the type under test
+		rs := rootSpec{Types: []int{tTransfer}, Outs: []int{tTransferResult}}
+		switch must {
+		case tTransfer:
+			return rs, 0
+		case tTransferResult:
+			rs.AsOut = true
 			return rs, 0
 		}
+		if r.Intn(2) == 0 {
+			rs.Types = append(rs.Types, must)
+			return rs, 1
+		}
+		rs.Outs = append(rs.Outs, must)
+		rs.AsOut = true
 		return rs, 1
 	case 1: // several roots sharing nested types, in random order
 		n := 2 + r.Intn(3)
@@ -750,7 +840,7 @@ func genMarshal(r *rand.Rand) marshalIn {
 	}
 	rs, k := genRoots(r, ti)
 	ptr := reflect.New(allTypes[ti].rtype())
-	genInto(r, ptr.Elem(), 0, r.Intn(4) == 0)
+	genInto(r, ptr.Elem(), 0, r.Intn(6) == 0)
 	if ti == tWithEmpty && r.Intn(3) != 0 {
 		// mostly encodable values (a non-empty slice of zero-length elements is rejected by the codec)
 		w := ptr.Interface().(*WithEmpty)
@@ -758,16 +848,16 @@ func genMarshal(r *rand.Rand) marshalIn {
 	}
 	if ti == tTransfer {
 		t := ptr.Interface().(*actions.Transfer)
-		switch r.Intn(6) {
-		case 0:
+		switch r.Intn(24) {
+		case 0, 1, 2:
 			t.Memo = []byte{}
-		case 1:
-			t.Memo = make([]byte, actions.MaxMemoSize)
+		case 3:
+			t.Memo = make([]byte, actions.MaxMemoSize-r.Intn(2))
 			r.Read(t.Memo)
-		case 2:
+		case 4:
 			t.Memo = make([]byte, actions.MaxMemoSize+1+r.Intn(700))
 			r.Read(t.Memo)
-		case 3:
+		case 5, 6, 7:
 			t.Value = math.MaxUint64
 		}
 	}
@@ -780,7 +870,7 @@ func genMarshal(r *rand.Rand) marshalIn {
 
 func genDecode(r *rand.Rand) decodeIn {
 	m := genMarshal(r)
-	ti := m.Roots.Types[m.K]
+	ti := m.Roots.under(m.K)
 	ptr := reflect.New(allTypes[ti].rtype())
 	_ = json.Unmarshal(m.Value, ptr.Interface())
 	normalize(ptr.Elem())
@@ -859,7 +949,11 @@ func replayOne(raw json.RawMessage) emit.Case {
 		if err := json.Unmarshal(hdr.In, &in); err != nil {
 			panic(err)
 		}
-		return runDecode(in)
+		c, ok := runDecode(in)
+		if !ok {
+			return runDescribe(in.Roots)
+		}
+		return c
 	case "describe":
 		var in rootSpec
 		if err := json.Unmarshal(hdr.In, &in); err != nil {
@@ -901,7 +995,7 @@ func TestDriver(t *testing.T) {
 	for ti := 0; ti < nTypes; ti++ {
 		_ = w.Put(runDescribe(rootSpec{Types: []int{ti}}))
 	}
-	_ = w.Put(runDescribe(rootSpec{Types: []int{tTransfer, tTransferResult}}))
+	_ = w.Put(runDescribe(rootSpec{Types: []int{tTransfer}, Outs: []int{tTransferResult}}))
 	for i := 0; i < env.N; i++ {
 		switch x := r.Intn(20); {
 		case x < 1:
@@ -909,7 +1003,9 @@ func TestDriver(t *testing.T) {
 		case x < 12:
 			_ = w.Put(runMarshal(genMarshal(r)))
 		case x < 18:
-			_ = w.Put(runDecode(genDecode(r)))
+			if c, ok := runDecode(genDecode(r)); ok {
+				_ = w.Put(c)
+			}
 		default:
 			_ = w.Put(runNative(genNative(r)))
 		}
